@@ -537,7 +537,7 @@ fn write_checked(l: &mut Local, leg: &str, p: &Pdu, kind: &str, replay: &Value) 
 }
 
 fn leg_a(cfg: &Cfg, sink: &Sink) -> Local {
-    let n = cfg.n(20_000, 500_000);
+    let n = cfg.n(60_000, 1_500_000);
     run_parallel(
         cfg,
         1,
@@ -646,7 +646,7 @@ fn pdu_with_length(rng: &mut Rng, plen: usize) -> Pdu {
 }
 
 fn leg_b(cfg: &Cfg, sink: &Sink) -> Local {
-    let n = cfg.n(3_000, 40_000);
+    let n = cfg.n(6_000, 80_000);
     run_parallel(
         cfg,
         2,
@@ -953,6 +953,11 @@ fn fits_everything(p: &Pdu) -> bool {
 
 fn leg_c(cfg: &Cfg, sink: &Sink) -> Local {
     let n = cfg.n(1_300, 13_000);
+    // single-threaded: cases are taken in index order, so the witness kept for every key is the
+    // first (= smallest: 65 536 bytes) one and the report is reproducible
+    let mut cfg1 = cfg.clone();
+    cfg1.threads = 1;
+    let cfg = &cfg1;
     run_parallel(
         cfg,
         3,
